@@ -811,6 +811,7 @@ func (ctx *context) generateNodeSet(
 // Any panics while running the machine are caught and the error fed back
 // in the result to the caller.
 func (ctx *context) Run() (res *Result) {
+	defer verifRunEnd(ctx)
 
 	defer func() {
 		if r := recover(); r != nil {
@@ -826,6 +827,7 @@ func (ctx *context) Run() (res *Result) {
 	for x, instr := range ctx.prog {
 		ctx.addDebugInstrAndStack(instr.fnName)
 		instr.fn(ctx)
+		verifStep(ctx, x, instr.fnName)
 		ctx.addDebug(ctx.pfx + "----\n")
 		_ = x
 	}
